@@ -90,8 +90,8 @@ def run(ctx):
     lib.coq_make(["theories/Search.vo"])
     n_prog = ctx.pick(30, 300)
     N = ctx.pick(3, 5)
-    progs = list(gen.corpus())
-    while len(progs) < n_prog:
+    progs = lib.replay_programs(ctx) or list(gen.corpus())
+    while len(progs) < n_prog and not ctx.replay:
         g = gen.G(ctx.rng, max_depth=ctx.rng.choice([1, 2]), allow_nested_reassign=False)
         p = g.program()
         progs.append((p, [], "+".join(sorted(g.features))))
@@ -185,7 +185,7 @@ def run(ctx):
                     break
             if bad:
                 ctx.violation(f"pass:{c['stage']}:{c['text']}:{oi}",
-                              {"program_text": c["text"], "options": OPTS[oi], "pass": c["stage"], "after_pass": P.prog_text(c["prog"]),
+                              {"program_text": c["text"], "prog_json": P.to_json(progs[i][0]), "options": OPTS[oi], "pass": c["stage"], "after_pass": P.prog_text(c["prog"]),
                                "n": bad[0], "state": bad[1], "source_probability": bad[2], "transformed_probability": bad[3]},
                               f"after {c['stage']} (options {OPTS[oi]}) the state {bad[1]} has probability {bad[3]} after {bad[0]} iterations, "
                               f"{bad[2]} in the source program\n{c['text']}")
